@@ -9,6 +9,7 @@ import Driver.Live
 import Driver.Json
 import Driver.ArpCache
 import Driver.Iface
+import Driver.Socks
 
 /-!
 Line-protocol driver: one case per input line, `tag \t fields… \t observed`, one answer per line,
@@ -38,6 +39,8 @@ def dispatch (line : String) : String :=
   | "jres" :: rest => (handleJRes rest).getD "BAD-CASE\t0"
   | "jlog" :: rest => (handleJLog rest).getD "BAD-CASE\t0"
   | "arpc" :: rest => (handleArpC rest).getD "BAD-CASE\t0"
+  | "socks" :: rest => (handleSocks rest).getD "BAD-CASE\t0"
+  | "socksio" :: rest => (handleSocksIO rest).getD "BAD-CASE\t0"
   | _ => "BAD-TAG\t0"
 
 partial def loop (h : IO.FS.Stream) (out : IO.FS.Stream) : IO Unit := do
